@@ -141,7 +141,20 @@ PLAN14 = {
  'WEG-m1': ('G', ['C08']), 'WEG-m2': ('G', ['C08']),
  'WEH-m1': ('H', ['C09']), 'WEH-m2': ('H', ['C09']),
 }
+PLAN15 = {
+ 'WFA-m1': ('A', ['C12']), 'WFA-m2': ('A', ['C12']),
+ 'WFB-m1': ('B', ['C02']), 'WFB-m2': ('B', ['C02']),
+ 'WFC-m1': ('C', ['C06']), 'WFC-m2': ('C', ['C06']),
+ 'WFD-m1': ('D', ['C08']), 'WFD-m2': ('D', ['C08']),
+ 'WFE-m1': ('E', ['C09']), 'WFE-m2': ('E', ['C09']),
+ 'WFF-m1': ('F', ['C08']), 'WFF-m2': ('F', ['C08']),
+ 'WFG-m1': ('G', ['C10']), 'WFG-m2': ('G', ['C10']),
+ 'WFH-m1': ('H', ['C07']), 'WFH-m2': ('H', ['C07']),
+}
 SRC = {}
+for k, (d, checks) in PLAN15.items():
+    PLAN[k] = checks
+    SRC[k] = f'/tmp/mut15-{d}/out/{k.split("-")[1]}'
 for k, (d, checks) in PLAN14.items():
     PLAN[k] = checks
     SRC[k] = f'/tmp/mut14-{d}/out/{k.split("-")[1]}'
